@@ -110,6 +110,9 @@ def make_key(x, st):
 
 def apply(x, st, y):
     o = st["op"]
+    if o == "set_req":      # the nutrition requirements / inclusion flags are reassigned; the quantity is untouched
+        set_flags(st["settings"], st["flags"][0], st["flags"][1])
+        return x
     if o == "add":
         return x + y
     if o == "sub":
@@ -252,7 +255,7 @@ def run_seq(seq, rng):
             z = None
             r["res"] = {"err": classify(e), "msg": str(e)[:120]}
         r["unchanged"] = (snapshot(x) == bx and snapshot(y) == by)
-        r["alias"] = bool(z is not None and (shares(z, x) or shares(z, y) or z is x or z is y))
+        r["alias"] = bool(z is not None and st["op"] != "set_req" and (shares(z, x) or shares(z, y) or z is x or z is y))
         if z is not None and seq.get("getters"):
             r["getters"] = getters(z)
         res["steps"].append(r)
@@ -299,7 +302,9 @@ def run(payload):
             except BaseException as e:
                 g["ctors"].append({"err": classify(e), "msg": str(e)[:120]})
         for seq in grp.get("seqs", []):
+            set_flags(grp["settings"], grp["flags"][0], grp["flags"][1])
             g["seqs"].append(run_seq(seq, random.Random(seq["seed"])))
+        set_flags(grp["settings"], grp["flags"][0], grp["flags"][1])
         for pc in grp.get("preds", []):
             g["preds"].append(run_pred(pc, random.Random(pc["seed"])))
         out.append(g)
